@@ -163,6 +163,8 @@ def run(ck, tier):
     ck.ob('R5', g.qn, 'getTransaction(tid) removes the entry it returns', okp, detail='reply-not-removed', loc=cx.floc(g),
           message='DictTransactionManager.getTransaction leaves the reply in the table: a later transaction that receives nothing returns the older reply as its answer')
     ck.guard(r6_unknown_size_read, ck, cx)
+    from .c13 import r6_short_first_read_is_a_fault
+    ck.guard(r6_short_first_read_is_a_fault, ck, cx, 'R7')
     ck.assume('correctness of decoded values is C01/C02; behaviour over all reply contents and histories is not decided')
     return cx.idx
 
